@@ -26,6 +26,7 @@ META = {
 META["technique"] += '; narrowing-before-use dataflow for values that may be Undefined (context.resolve); operand-normalisation dominance in the comparison helpers; presence-by-key rule on the lookup functions'
 META["level_text"] += " Also decided, as necessary conditions of the second sentence (R5, R6): _eq/_lt/_contains resolve __liquid__() before Python comparison can consult an undefined operand's own __eq__; lookups decide 'missing' from the failed key, never from a nil/false value."
 META["technique"] += "; sibling agreement between the undefined classes (a relaxed hook must have the default's body, operands of and/or chains compared as sets)"
+META["technique"] += '; truth-table complement check of reject against where'
 META["level_text"] += " Also decided (R8): every hook that a strict undefined class answers without raising answers exactly as the default Undefined does."
 
 U = "liquid2.undefined.Undefined"
@@ -535,3 +536,7 @@ def run(prog: Program, res: Result) -> None:  # noqa: PLR0912, PLR0915
     from checks.shared import check_env_globals_merge_shape
 
     check_env_globals_merge_shape(prog, res, "C16.R11")
+    res.rule("C16.R12", "a missing property behaves as nil in the selecting filters: `reject` keeps exactly the items `where` drops, branch by branch (truth table over is_undefined(r) / is_truthy(r) / the equality tests) - an item whose lambda result is undefined is dropped by where, hence kept by reject, under every undefined policy")
+    from checks.shared import check_reject_complements_where
+
+    check_reject_complements_where(prog, res, "C16.R12")
